@@ -227,7 +227,7 @@ class BufSize:
                 if vid in st.cst:
                     st.cst[vid] += d
             return st
-        ap = assign_parts(e)
+        ap = assign_parts_raw(e)
         if ap:
             tgt, rhs, op = ap
             st = self.eff(rhs, st, loc)
